@@ -63,7 +63,7 @@ try:
         viol = [l for l in p.stdout.splitlines() if l.startswith("VIOLATION")]
         keys = [l.strip()[:200] for l in p.stdout.splitlines() if l.startswith("  key=")]
         res["%s/%s" % (c, a.tier)] = {"exit": p.returncode, "violations": len(viol), "first_keys": keys[:3], "wall_s": round(time.time() - t0, 1)}
-        print(name, c, a.tier, "exit=%d" % p.returncode, "violations=%d" % len(viol), (keys[0][:150] if keys else ""), "" if p.returncode in (0, 1) else p.stdout[-600:] + p.stderr[-600:])
+        print(name, c, a.tier, "exit=%d" % p.returncode, "violations=%d" % len(viol), (keys[0][:150] if keys else ""), "" if p.returncode in (0, 1) else (p.stdout[-300:] + p.stderr[-300:]).replace("\n", " | "))
     json.dump(meta, open(meta_path, "w"), indent=1)
 finally:
     shutil.rmtree(clean, ignore_errors=True)
